@@ -26,6 +26,7 @@ REQUIRE = {'lifecycles': 80, 'hook_observations': 180, 'faulted_shutdowns': 40, 
            'no_trace_lifecycles': 20, 'plugin_shutdown_faults': 15}
 SHARD_TIMEOUT = {'quick': 400, 'thorough': 2400}
 SEQS = [['start', 'shutdown'], ['start', 'start', 'shutdown'], ['start', 'shutdown', 'shutdown']]
+SEQS_MORE = SEQS + [['start', 'shutdown', 'swap', 'start', 'shutdown'], ['start', 'shutdown', 'swap', 'start', 'shutdown']]
 
 
 def plan(tier, seed):
@@ -45,16 +46,18 @@ def plan(tier, seed):
 
 
 FAULTS = ['server_stopped', 'poll_errors', 'send_fails', 'send_fails_during_flush', 'plugin0_shutdown',
-          'plugin1_shutdown', 'plugin2_shutdown']
+          'plugin1_shutdown', 'plugin2_shutdown', 'poll_slow', 'same_plugin_names', 'plugin_named_poll']
 
 
 def gen_case(seed):
     r = Rng('c14', seed)
     nplug = r.randrange(1, 4)
-    faults = [f for f in FAULTS if r.chance(0.3) and not (f.startswith('plugin') and int(f[6]) >= nplug)]
+    faults = [f for f in FAULTS if r.chance(0.25) and not (f[:6] == 'plugin' and f[6].isdigit() and int(f[6]) >= nplug)]
     if not faults:
-        faults = [r.pick(FAULTS[:4] + ['plugin0_shutdown'])]
-    return {'pre_sys': r.chance(0.5), 'pre_thr': r.chance(0.5), 'no_trace': r.chance(0.25), 'ops': r.pick(SEQS),
+        faults = [r.pick(FAULTS[:4] + ['plugin0_shutdown', 'poll_slow', 'same_plugin_names', 'plugin_named_poll'])]
+    if 'poll_slow' in faults and 'server_stopped' in faults:
+        faults.remove('server_stopped')
+    return {'pre_sys': r.chance(0.5), 'pre_thr': r.chance(0.5), 'no_trace': r.chance(0.25), 'ops': r.pick(SEQS_MORE),
             'faults': faults, 'nplug': nplug}
 
 
@@ -74,6 +77,9 @@ def judge(case, res, out, replay):
     for o in obs[1:]:
         out.count('hook_observations')
         op = o['op']
+        if op == 'swap':
+            pre = o['hooks']      # the application changed its own hooks while the agent was shut down
+            continue
         if case['no_trace']:
             if o['hooks'] != pre:
                 out.violation('hooks:changed-under-no-trace', 'after %s (tracing disabled) the hooks are %s, before '
@@ -140,7 +146,7 @@ def run_case(case, out, replay):
         out.count('faulted_shutdowns')
     if case['no_trace']:
         out.count('no_trace_lifecycles')
-    if any(f.startswith('plugin') for f in case['faults']):
+    if any(f.startswith('plugin') and f[6].isdigit() for f in case['faults']):
         out.count('plugin_shutdown_faults')
     out.case(case, nontrivial=bool(case['faults'] or case['pre_sys'] or case['pre_thr'] or len(case['ops']) > 2),
              sample={'lifecycle': case, 'observations': (res.get('obs') or [])[:4], 'post': res.get('post')})
@@ -178,16 +184,27 @@ def child_lifecycle(case):
     names = []
     for i in range(case['nplug']):
         kinds = [['log', 'met'], ['span', 'dec'], ['res', 'met']][i]
-        plugins.make('Life%d' % i, kinds, order=i)
+        display = None
+        if 'same_plugin_names' in case['faults']:
+            display = 'Twin'               # e.g. two AuditPlugin classes from different packages
+        if 'plugin_named_poll' in case['faults'] and i == 0:
+            display = 'poll'
+        plugins.make('Life%d' % i, kinds, order=i, display_name=display)
         names.append('vf.plugins.Life%d' % i)
     for f in case['faults']:
-        if f.startswith('plugin'):
+        if f.startswith('plugin') and f[6].isdigit():
             plugins.FAULTS[('Life%s' % f[6], 'shutdown')] = '*'
 
     def pre_sys(frame, event, arg):
         return None
 
     def pre_thr(frame, event, arg):
+        return None
+
+    def pre_sys2(frame, event, arg):
+        return None
+
+    def pre_thr2(frame, event, arg):
         return None
 
     if case['pre_thr']:
@@ -203,6 +220,10 @@ def child_lifecycle(case):
                 return 'pre_sys'
             if f is pre_thr:
                 return 'pre_thr'
+            if f is pre_sys2:
+                return 'pre_sys2'
+            if f is pre_thr2:
+                return 'pre_thr2'
             mod = getattr(getattr(f, '__self__', None), '__class__', type(None)).__module__
             return 'agent' if str(mod).startswith('deep.') or 'deep' in str(getattr(f, '__module__', '')) else 'other'
         return [name(sys.gettrace()), name(threading.gettrace())]
@@ -233,21 +254,28 @@ def child_lifecycle(case):
     def observe(op):
         ps = {}
         for i in range(case['nplug']):
-            insts = plugins.INSTANCES.get('Life%d' % i, [])
+            insts = [x for lst in plugins.INSTANCES.values() for x in lst if x.class_name == 'Life%d' % i]
             if insts:
                 ps['Life%d' % i] = len(plugins.events('Life%d' % i, 'shutdown'))
         growth = None
+        timers_now = timers()        # read at the moment the operation returned
         if op.startswith('shutdown') and not case['no_trace']:
             n1 = len(srv.polls)
             time.sleep(0.45)           # 4+ poll intervals
             growth = len(srv.polls) - n1
-        obs.append({'op': op, 'hooks': hooks(), 'timers': timers(), 'polls_after_shutdown': growth,
+        obs.append({'op': op, 'hooks': hooks(), 'timers': timers_now, 'polls_after_shutdown': growth,
                     'started': bool(agent.started),
                     'plugin_shutdowns': ps, 'accepted': accepted[0] if op.startswith('shutdown') else None,
                     'attempted': len(srv.snapshots)})
 
     try:
         for op in case['ops']:
+            if op == 'swap':
+                # while the agent is shut down the application installs other hooks (or removes them)
+                sys.settrace(pre_sys2 if case['pre_thr'] else None)
+                threading.settrace(pre_thr2 if case['pre_sys'] else None)
+                obs.append({'op': 'swap', 'hooks': hooks()})
+                continue
             if op == 'start':
                 nstart += 1
                 if agent is None:
@@ -292,6 +320,13 @@ def child_lifecycle(case):
                         srv.stop()
                     if gate is not None:
                         threading.Timer(0.15, gate.set).start()
+                    if 'poll_slow' in case['faults'] and 'server_stopped' not in case['faults']:
+                        # the service answers slowly: shut down while a timer-driven poll is in flight
+                        srv.poll_delay = 0.5
+                        end = time.monotonic() + 5
+                        with srv.lock:
+                            while srv.polls_in_flight == 0 and time.monotonic() < end:
+                                srv.lock.wait(0.05)
                 try:
                     agent.shutdown()
                 except BaseException as e:  # noqa
